@@ -60,8 +60,11 @@ _LIFE = [(COMM, "CommHandler", f) for f in ("_start", "_stop", "connect", "disco
                                              "stream_stop", "stream_sub", "stream_unsub", "dev_channel_get")] + \
         [(THR, "ThreadCommon", f) for f in ("__init__", "_thread_loop", "thread_start", "thread_stop", "thread_is_alive",
                                             "stop_set", "_stop_is_set", "_stop_clear")]
-_FAN = [(NX, "NxscopeHandler", f) for f in ("_stream_thread", "stream_sub", "stream_unsub", "_stream_start", "_stream_stop")] + \
-       [(COMM, "CommHandler", f) for f in ("stream_data", "_recv_thread", "_get_stream_frame", "ch_is_enabled")]
+_FAN = [(NX, "NxscopeHandler", f) for f in ("_stream_thread", "stream_sub", "stream_unsub", "_stream_start", "_stream_stop",
+                                            "stream_start", "stream_stop", "_reset_stats", "connect")] + \
+       [(COMM, "CommHandler", f) for f in ("stream_data", "_recv_thread", "_get_stream_frame", "ch_is_enabled", "_channels_init")] + \
+       [(DEV, "DeviceChannel", "__init__"), (DEV, "Device", "channel_get"), (PA, "Parser", "frame_stream_decode")] + \
+       [(THR, "ThreadCommon", f) for f in ("_thread_loop", "thread_start", "thread_stop")]
 _STREAMDEC = [(PA, "Parser", f) for f in ("_stream_data_get", "frame_stream_decode")] + \
              [(IP, None, f) for f in ("dsfmt_get", "msfmt_get")]
 _STREAMENC = [(PR, "ParseRecv", f) for f in ("_stream_bytes_get", "_stream_data_encode", "frame_stream_encode")]
